@@ -123,10 +123,16 @@ Proof.
   - inversion H; subst. exact Hk.
   - destruct (negb _); [discriminate|]. destruct (lookup c sizes) as [len|] eqn:El; [|discriminate].
     pose proof (get_id_known sizes ids c len Hk El) as Hk'.
-    destruct (get_id ids c) as [ids1 id]. cbn [fst] in Hk'.
+    (* after the repair the run is refused when the id map already has the chromosome *)
+    try (destruct (lookup c ids) as [oldid|] eqn:Eid; [discriminate|]; unfold get_id in H, Hk'; rewrite Eid in H, Hk').
+    try (destruct (get_id ids c) as [ids1 id]).
+    cbn [fst] in Hk'.
     destruct (check_chrom len vals) as [[]| | |]; try discriminate. cbn [rbind] in H.
-    destruct (process_runs o sizes (Some c) ids1 rest) as [[ids2 outs2]| | |] eqn:Er; try discriminate.
-    cbn [rbind] in H. inversion H; subst. eapply IH; [exact Hk'|exact Er].
+    match type of H with
+    | context [process_runs o sizes (Some c) ?i rest] =>
+        destruct (process_runs o sizes (Some c) i rest) as [[ids2 outs2]| | |] eqn:Er; try discriminate;
+        cbn [rbind] in H; inversion H; subst; eapply IH; [exact Hk'|exact Er]
+    end.
 Qed.
 Lemma collect_known fp o sizes input ids outs sum data :
   bw_collect fp o sizes input = Ok (ids, outs, sum, data) -> known sizes ids.
